@@ -56,6 +56,8 @@ type family struct {
 
 type pki struct {
 	sroot, croot *fx.Cert
+	// second configured roots (in RootCAs / ClientCAs beside the first) that expired one hour before Config.Time
+	srootOld, crootOld *fx.Cert
 	ceroot       *fx.Cert // the root of the untrusted client hierarchy (the "changed ClientCAs" pool of resume.go)
 	rsa, ec      family
 	keys         map[string]crypto.Signer
@@ -68,10 +70,12 @@ func (p *pki) fam(rsaLeaf bool) *family {
 	return &p.ec
 }
 
-// pool returns a fresh pool with one root (pools are not shared between goroutines).
-func (p *pki) pool(root *fx.Cert) *x509.CertPool {
+// pool returns a fresh pool with the given roots (pools are not shared between goroutines).
+func (p *pki) pool(roots ...*fx.Cert) *x509.CertPool {
 	cp := x509.NewCertPool()
-	cp.AddCert(root.X)
+	for _, r := range roots {
+		cp.AddCert(r.X)
+	}
 	return cp
 }
 
@@ -99,6 +103,14 @@ func buildPKI() *pki {
 	// an intermediate of the trusted root that expired one hour before Config.Time
 	sintOld := fx.MustMint(fx.CertSpec{CN: "C27 server intermediate (old)", Key: "c27-sint-old", IsCA: true, KeyUsage: caUse, Serial: 3,
 		NotBefore: fx.T0.Add(-48 * time.Hour), NotAfter: fx.T0.Add(-time.Hour)}, p.sroot)
+	oldRoot := func(cn, key string) *fx.Cert {
+		return fx.MustMint(fx.CertSpec{CN: cn, Key: key, IsCA: true, KeyUsage: caUse, Serial: 4,
+			NotBefore: fx.T0.Add(-48 * time.Hour), NotAfter: fx.T0.Add(-time.Hour)}, nil)
+	}
+	p.srootOld = oldRoot("C27 server root (old)", "c27-sroot-old")
+	sintUnderOld := ca("C27 server intermediate under old root", "c27-sint-uo", p.srootOld, 5)
+	p.crootOld = oldRoot("C27 client root (old)", "c27-croot-old")
+	cintUnderOld := ca("C27 client intermediate under old root", "c27-cint-uo", p.crootOld, 5)
 	eroot := ca("C27 unknown root", "c27-eroot", nil, 1)
 	eint := ca("C27 unknown intermediate", "c27-eint", eroot, 2)
 	// client side
@@ -147,6 +159,7 @@ func buildPKI() *pki {
 			s.EKU = []x509.ExtKeyUsage{x509.ExtKeyUsageClientAuth}
 		}), sint, keyA)
 		f.server[sExpiredInterm] = mk(sleaf(keyA, 23, sintOld, nil), sintOld, keyA)
+		f.server[sExpiredRoot] = mk(sleaf(keyA, 26, sintUnderOld, nil), sintUnderOld, keyA)
 		f.server[sIPMatch] = mk(sleaf(keyA, 24, sint, func(s *fx.CertSpec) {
 			s.CN, s.DNS = "c27 ip host", nil
 			s.Tweak = func(t *x509.Certificate) { t.IPAddresses = []net.IP{net.ParseIP(ipName).To4()} }
@@ -192,6 +205,7 @@ func buildPKI() *pki {
 		f.client[cWrongEKU] = mk(cleaf(ckeyA, 35, cint, func(s *fx.CertSpec) {
 			s.EKU = []x509.ExtKeyUsage{x509.ExtKeyUsageServerAuth}
 		}), cint, ckeyA)
+		f.client[cExpiredRoot] = mk(cleaf(ckeyA, 38, cintUnderOld, nil), cintUnderOld, ckeyA)
 		clong := func(s *fx.CertSpec) { s.NotAfter = fx.T0.Add(20 * 365 * 24 * time.Hour) }
 		f.rClient[rcTrusted] = mk(cleaf(ckeyA, 36, cint, clong), cint, ckeyA)
 		f.rClient[rcShort] = mk(cgood, cint, ckeyA)
@@ -207,18 +221,20 @@ func buildPKI() *pki {
 // wrong expectation.
 func (p *pki) selfCheck() error {
 	std := func(der []byte) (*stdx509.Certificate, error) { return stdx509.ParseCertificate(der) }
-	verify := func(chain [][]byte, root *fx.Cert, dns string, eku stdx509.ExtKeyUsage) error {
+	verify := func(chain [][]byte, roots []*fx.Cert, dns string, eku stdx509.ExtKeyUsage) error {
 		leaf, err := std(chain[0])
-		if err != nil {
-			return err
-		}
-		r, err := std(root.DER)
 		if err != nil {
 			return err
 		}
 		opts := stdx509.VerifyOptions{Roots: stdx509.NewCertPool(), Intermediates: stdx509.NewCertPool(),
 			DNSName: dns, CurrentTime: fx.T0, KeyUsages: []stdx509.ExtKeyUsage{eku}}
-		opts.Roots.AddCert(r)
+		for _, root := range roots {
+			r, err := std(root.DER)
+			if err != nil {
+				return err
+			}
+			opts.Roots.AddCert(r)
+		}
 		for _, d := range chain[1:] {
 			ic, err := std(d)
 			if err != nil {
@@ -235,7 +251,7 @@ func (p *pki) selfCheck() error {
 			if s == sKeySubst {
 				shown = f.substChain
 			}
-			err := verify(shown, p.sroot, serverNameFor(s), stdx509.ExtKeyUsageServerAuth)
+			err := verify(shown, []*fx.Cert{p.sroot, p.srootOld}, serverNameFor(s), stdx509.ExtKeyUsageServerAuth)
 			if (err == nil) != serverChainVerifies(s) {
 				return fmt.Errorf("%s server scenario %s: label chainVerifies=%v, crypto/x509 says %v", name, sScenNames[s], serverChainVerifies(s), err)
 			}
@@ -248,7 +264,7 @@ func (p *pki) selfCheck() error {
 			}
 		}
 		for cs := cScen(1); cs < nCScen; cs++ {
-			err := verify(f.client[cs].chain, p.croot, "", stdx509.ExtKeyUsageClientAuth)
+			err := verify(f.client[cs].chain, []*fx.Cert{p.croot, p.crootOld}, "", stdx509.ExtKeyUsageClientAuth)
 			if (err == nil) != clientChainVerifies(cs) {
 				return fmt.Errorf("%s client scenario %s: label chainVerifies=%v, crypto/x509 says %v", name, cScenNames[cs], clientChainVerifies(cs), err)
 			}
